@@ -342,6 +342,35 @@ def run(ctx):
         nhist += resulthistory.replay(ctx, ["quad", "mcquad", "quad:alias", "mcquad:alias"], "quad")
         from vlib import bufferreuse
         nhist += bufferreuse.replay(ctx, ["quad", "mcquad"], "quad")
+        # quadratures nested in one another (a double integral: the integrand of the outer call evaluates an inner quad for every node):
+        # the kinds of limits of the two calls - finite / infinite - are independent; exp(-(x^2 + y^2)/2) factorises into error functions
+        from math import erf, sqrt, pi
+        inf_ = float("inf")
+        g1 = lambda a_, b_: sqrt(pi / 2.0) * (erf(b_ / sqrt(2.0)) - erf(a_ / sqrt(2.0)))
+
+        def nested(ol, ou, il, iu, nn):
+            def inner(xx):
+                return xitorch.integrate.quad(lambda y_, x_: torch.exp(-0.5 * (x_ * x_ + y_ * y_)), il, iu, params=(xx,), n=nn)
+
+            def outer(x_):
+                x_ = torch.as_tensor(x_, dtype=torch.float64)
+                return torch.stack([inner(xi) for xi in x_.reshape(-1)]).reshape(x_.shape)
+            return xitorch.integrate.quad(outer, ol, ou, n=nn)
+        for ol, ou, il, iu in ((-inf_, inf_, -inf_, inf_), (0.0, inf_, -inf_, inf_), (-1.0, 2.0, -inf_, inf_), (-inf_, inf_, 0.5, 1.5), (-1.0, 2.0, 0.5, 1.5), (-inf_, 0.3, 0.2, inf_)):
+            nhist += 1
+            n += 1
+            ctx.case(key=("nested-quad", ol, ou, il, iu))
+            why = None
+            try:
+                v = float(nested(ol, ou, il, iu, 60))
+                ref = g1(ol, ou) * g1(il, iu)
+                if not abs(v - ref) <= 1e-8 * max(1.0, abs(ref)):
+                    why = "%.12g, the product of the two one-dimensional integrals is %.12g" % (v, ref)
+            except Exception as e:
+                why = "raised %s: %s" % (type(e).__name__, str(e)[:120])
+            if why:
+                ctx.violation("quad/nested", "double integral of exp(-(x^2+y^2)/2) over (%s, %s) x (%s, %s) by a quad inside the integrand of a quad (n = 60): %s" % (ol, ou, il, iu, why),
+                              {"outer": [ol, ou], "inner": [il, iu]})
         full = sorted([h_["hist"] for h_ in hnodes.values() if len(h_["hist"]) == 3], key=lambda h_: [(c_["call"]["dtype"], c_["call"]["n"]) for c_ in h_])
         TD = {"f32": torch.float32, "f64": torch.float64}
         for hi, hist in enumerate(full):
